@@ -302,6 +302,28 @@ def r5(ctx, cfg, R="C06.R5"):
                     kinds.add("other:" + fmt(o)[:60])
             ctx.ob(R, key, "bound-constructor-%s" % want, kinds == {"Unbounded", want}, "%s bound of the overlay range is %s" % (pname, sorted(kinds)), fn=f,
                    sample="%s: Unbounded | Bound::%s(%s.to_vec())" % (pname, want, pname))
+        # .. and which one is chosen depends on nothing but the presence of the caller's bound: Unbounded exactly when it is
+        # None (an empty key is a key: `end = Some(b"")` is the empty range, not an open one)
+        agg_st = [st0 for b0, i0, st0 in f.stmts() if st0["k"] == "assign" and st0["rv"].get("k") == "aggregate" and st0["rv"].get("agg") == "tuple" and
+                  len(st0["rv"]["ops"]) == 2 and same_origin(P.rvalue(f, st0["rv"], (b0, i0)), a[1])]
+        for (pname, want), idx0 in zip((("start", "Included"), ("end", "Excluded")), (0, 1)):
+            bad = []
+            nleaf = 0
+            for st0 in agg_st:
+                l0 = q.local_of_operand(st0["rv"]["ops"][idx0])
+                for val, conds, dsite in (q.value_cases(P, f, l0) if l0 is not None else []):
+                    v = peel(val)
+                    if not (v[0] == "agg" and v[1].startswith("std::ops::Bound::")):
+                        continue
+                    nleaf += 1
+                    pres = [c0[2] for e0, c0 in conds if c0[0] == "variant_in" and is_param(c0[1], pname)]
+                    extra = [c0[1] for e0, c0 in conds if c0[0] == "bool" and any(contains(x, lambda y: y[0] == "param" and y[2] == pname) for x in c0[1][1])]
+                    if v[1].endswith("Unbounded") and (("None",) not in pres or extra):
+                        bad.append("Unbounded chosen under %s %s" % (pres, [(e1[0], e1[2]) for e1 in extra]))
+                    if not v[1].endswith("Unbounded") and (("Some",) not in pres or extra):
+                        bad.append("%s chosen under %s %s" % (v[1].rsplit("::", 1)[1], pres, [(e1[0], e1[2]) for e1 in extra]))
+            ctx.ob(R, key, "bound-chosen-by-presence-only:%s" % pname, nleaf >= 2 and not bad, "the %s bound of the overlay range: %s" % (pname, bad or "no definition found"), fn=f,
+                   sample="Unbounded iff %s is None (%d definitions)" % (pname, nleaf))
     # the guard: a comparison start > end between the Included / Excluded payloads
     guards = []
     for bid in f.order:
